@@ -951,9 +951,74 @@ func (ts *TreeSpec) children(e *Engine, s *State, cs *ctxSpec, ctx *Term) Value 
 		}
 		return Value{tag, node}
 	}
+	// a rule with one alternative: the mandatory leading tokens are the first children, in grammar
+	// order, with the token types of the generated parser; and there are at least as many
+	// children as the alternative has mandatory elements
+	type lead struct{ types []int64 }
+	var leads []lead
+	if len(alts) == 1 {
+		s.assume(Le(Int(int64(minChildren(alts[0].elems))), n))
+	prefix:
+		for _, el := range alts[0].elems {
+			if el.min != 1 || el.many {
+				break
+			}
+			switch el.kind {
+			case "token":
+				if t, ok := e.tokenType(el.name); ok {
+					leads = append(leads, lead{[]int64{t}})
+				} else {
+					leads = append(leads, lead{})
+				}
+			case "lit":
+				leads = append(leads, lead{})
+			case "group":
+				var tys []int64
+				for _, a := range el.alts {
+					if len(a.elems) != 1 || a.elems[0].kind != "token" || a.elems[0].min != 1 || a.elems[0].many {
+						break prefix
+					}
+					t, ok := e.tokenType(a.elems[0].name)
+					if !ok {
+						break prefix
+					}
+					tys = append(tys, t)
+				}
+				leads = append(leads, lead{tys})
+			default:
+				break prefix
+			}
+		}
+	}
 	e.arrFacts[arr] = func(st *State, idx *Term) {
-		st.assume(Ne(App("acc.elem", SInt, arr, idx), Zero))
-		ts.depthFact(st, ctx, App("acc.elem", SInt, arr, idx))
+		node := App("acc.elem", SInt, arr, idx)
+		st.assume(Ne(node, Zero))
+		ts.depthFact(st, ctx, node)
+		for i, l := range leads {
+			if len(l.types) == 0 {
+				continue
+			}
+			ty := App("tok.GetTokenType", SInt, App("tok.symbol", SInt, node))
+			var ds []*Term
+			for _, t := range l.types {
+				ds = append(ds, Eq(ty, Int(t)))
+			}
+			st.assume(Implies(Eq(idx, Int(int64(i))), Or(ds...)))
+		}
+	}
+	if len(leads) > 0 {
+		spec := e.arrSpecs[arr]
+		e.arrSpecs[arr] = func(idx *Term) Value {
+			v := spec(idx)
+			if idx.K == KInt && int(idx.I) < len(leads) {
+				return Value{e.tokenNodeTag(), v[1]}
+			}
+			tag := v[0]
+			for i := len(leads) - 1; i >= 0; i-- {
+				tag = Ite(Eq(idx, Int(int64(i))), e.tokenNodeTag(), tag)
+			}
+			return Value{tag, v[1]}
+		}
 	}
 	if n == Zero {
 		return Value{Zero, Zero, Zero, Zero}
@@ -966,4 +1031,41 @@ func (ts *TreeSpec) children(e *Engine, s *State, cs *ctxSpec, ctx *Term) Value 
 // strictly below its parent's (the termination measure of the recursive visitors).
 func (ts *TreeSpec) depthFact(s *State, parent, child *Term) {
 	s.assume(And(Le(Zero, App("acc.depth", SInt, child)), Lt(App("acc.depth", SInt, child), App("acc.depth", SInt, parent))))
+}
+
+// minChildren: the least number of children an element sequence produces.
+func minChildren(elems []*gElem) int {
+	n := 0
+	for _, el := range elems {
+		if el.min == 0 {
+			continue
+		}
+		one := 1
+		if el.kind == "group" {
+			one = -1
+			for _, a := range el.alts {
+				if m := minChildren(a.elems); one < 0 || m < one {
+					one = m
+				}
+			}
+			if one < 0 {
+				one = 0
+			}
+		}
+		n += one * el.min
+	}
+	return n
+}
+
+// tokenType: the generated parser's constant PacketDslParser<NAME>.
+func (e *Engine) tokenType(name string) (int64, bool) {
+	p := e.prog.ImportedPackage(grammarPkg)
+	if p == nil {
+		return 0, false
+	}
+	c, ok := p.Members["PacketDslParser"+name].(*ssa.NamedConst)
+	if !ok || c.Value == nil {
+		return 0, false
+	}
+	return c.Value.Int64(), true
 }
